@@ -82,6 +82,7 @@ class Result:
         self.violations = []
         self.unsupported = 0
         self.both_fuel = 0
+        self.model_timeouts = 0
         self.oracle_checks = 0
         self.samples = []
         self.distribution = {}
@@ -102,6 +103,12 @@ class Result:
         self.violations.append({'what': what, 'case': case, 'observed': observed})
 
     def disagreement(self, case, impl, model, where=''):
+        if isinstance(model, str) and model.startswith("('fuel', 'model-timeout')"):
+            # the model was still computing when its wall-clock budget ran out (machine load, a very long input): no
+            # answer to compare, so neither agreement nor disagreement (`fuel_is_only_a_termination_device`: more time
+            # could only have produced the answer, not changed one)
+            self.model_timeouts += 1
+            return
         self.disagreements.append({'case': case, 'impl': impl, 'model': model, 'where': where})
 
 
